@@ -8,7 +8,7 @@ use crate::{for_both, Ctx};
 use blsful::*;
 use serde_json::json;
 
-pub const RULE: &str = "keys = edge scalars E + random pool (12 quick / 40 thorough), both groups. Per key: proof_of_possession twice (determinism), verify against own key (library and reference PopVerify), byte equality with reference PopProve; every ORDERED pair of distinct keys in the pool: proof of i against key j must fail (library and reference); perturbations of the proof point: +G, negation, doubling, P+pop(other), a plain signature (each scheme) over the public-key bytes, re-encoded (must still pass). Distinct by (suite, kind, pk, proof); non-trivial = both points decode and the pairing equation decides.";
+pub const RULE: &str = "keys = edge scalars E + random pool (12 quick / 40 thorough), both groups. Per key: proof_of_possession twice (determinism), verify against own key (library and reference PopVerify), byte equality with reference PopProve; every ORDERED pair of distinct keys in the pool: proof of i against key j must fail (library and reference); every negative question is asked three times in a row, directly after an accepted one (an acceptance on any attempt counts); perturbations of the proof point: +G, negation, doubling, P+pop(other), a plain signature (each scheme) over the public-key bytes, re-encoded (must still pass). Distinct by (suite, kind, pk, proof); non-trivial = both points decode and the pairing equation decides.";
 
 pub fn run(ctx: &mut Ctx) {
     for_both!(run_suite, ctx);
@@ -84,7 +84,12 @@ fn run_suite<C: Suite>(ctx: &mut Ctx) {
                 continue;
             }
             let lq = ProofOfPossession::<C>(ls::<C>(q));
-            let got = ctx.guard("ProofOfPossession::verify", || d(&vn), || lq.verify(pk).is_ok());
+            // asked three times in a row: the verdict of a pure check must not depend on how
+            // often (or after what) it is asked; an acceptance on any attempt counts
+            let got = ctx.guard("ProofOfPossession::verify", || d(&vn), || {
+                let a = [lq.verify(pk).is_ok(), lq.verify(pk).is_ok(), lq.verify(pk).is_ok()];
+                if expect { a.iter().all(|x| *x) } else { a.iter().any(|x| *x) }
+            });
             if let Some(got) = got {
                 let sig = if expect { format!("C09/valid-rejected/{n}") } else { format!("C09/perturbed-accepted/{n}/{vn}") };
                 ctx.expect(got == expect, &sig, || {
@@ -110,13 +115,18 @@ fn run_suite<C: Suite>(ctx: &mut Ctx) {
                 continue;
             }
             let lpk = PublicKey::<C>::try_from(pkj.as_slice()).expect("pk");
-            let got = pop.verify(lpk).is_ok();
+            // own key (accepted), then the foreign key three times in a row: neither a preceding
+            // success nor a preceding failure of the same question may change the answer
+            let own_ok = pop.verify(pk).is_ok();
+            ctx.expect(own_ok, &format!("C09/own-rejected/{n}"), || d("own proof rejected (asked between foreign-key checks)"));
+            let asks = [pop.verify(lpk).is_ok(), pop.verify(lpk).is_ok(), pop.verify(lpk).is_ok()];
+            let got = asks.iter().any(|x| *x);
             let r = refimpl::pop_verify::<C::R>(pkj, popb);
             if r {
                 ctx.harness_error("C09 reference accepts a foreign proof".into());
             }
             ctx.expect(!got, &format!("C09/foreign-key-accepted/{n}"), || {
-                json!({"what":"proof accepted for another public key","proof_of":hex::encode(pkb),"verified_against":hex::encode(pkj),"proof":hex::encode(popb)})
+                json!({"what":"proof accepted for another public key","verdicts_of_three_consecutive_asks":asks.to_vec(),"proof_of":hex::encode(pkb),"verified_against":hex::encode(pkj),"proof":hex::encode(popb)})
             });
             ctx.hit(&format!("{n}/other-key"), &[pkj, popb]);
         }
